@@ -370,6 +370,8 @@ MOPS = {
     "len": lambda m, d: setattr(m, "len_scale", 3.1),
     "var": lambda m, d: setattr(m, "var", 0.7),
     "nugget": lambda m, d: setattr(m, "nugget", 0.2),
+    # time anisotropy of space-time models (also lat-lon + time): the last ratio
+    "tanis": lambda m, d: setattr(m, "anis", [float(a) for a in m.anis[:-1]] + [3.0]),
 }
 
 
@@ -398,6 +400,8 @@ def case_refresh(case):
         if op in MOPS:
             if op in ("anis", "angles") and (geo.kind.startswith("latlon") or sdim == 1):
                 return r.done(skip="no anisotropy / rotation in this geometry")
+            if op == "tanis" and not geo.temporal:
+                return r.done(skip="no time axis in this geometry")
             MOPS[op](k.model, sdim)
             if op == "anis":
                 geo.anis = [0.35, 1.7][: sdim - 1]
@@ -409,6 +413,8 @@ def case_refresh(case):
                 st["var"] = 0.7
             elif op == "nugget":
                 st["nug"] = 0.2
+            elif op == "tanis":
+                geo.t_anis = 3.0
             continue
         if op == "refresh":
             k.set_condition()
@@ -496,7 +502,7 @@ def refresh_cases(tier, gen, mops, depth, nugget=None, mode=None, exact=False):
                 hists.append(list(h))
     hcases = []
     hvariants = ["Simple", "Ordinary", "Universal", "ExtDrift", "ExtDrift2", "DriftExt", "Detrended", "GenericDrift"]
-    for kind, sdim in [("euclid", 2), ("euclid", 3), ("time", 2), ("latlon", 3)]:
+    for kind, sdim in [("euclid", 2), ("euclid", 3), ("time", 2), ("latlon", 3), ("latlon+time", 3)]:
         P, T, ax = pool(kind, sdim, gen)
         for variant in hvariants if tier != "quick" or (kind, sdim) == ("euclid", 2) else ["Simple", "Universal", "DriftExt"]:
             nm = max(n_min(variant, geo_of(kind, sdim, False).field_dim), 4)
